@@ -142,6 +142,16 @@ UpPathGet(c, l, x) == IF IsExc(x) THEN Raised(GlomDoc("PathAccessError"), "new")
 UpGenIter(c, l, x) ==
   IF Mutant = "iter_wraps" /\ IsExc(x) THEN Raised(TypeErrorCls, "new") ELSE x
 
+\* T[<spec>] / T.method(<spec>): the fault is raised by user code while the index / argument
+\* spec of a T operation is evaluated (T[Spec(f)], T[Invoke(f)], T.m(Spec(f))).  That is not an
+\* access failure of the step: the access has not been attempted; the exception travels on.
+\* Mutant "arg_in_guard": the evaluation sits inside the `[` step's
+\* except (KeyError, IndexError, TypeError) and is relabelled PathAccessError.
+UpTArg(c, l, x) ==
+  IF Mutant = "arg_in_guard" /\ c.v # "call_spec" /\ IsExc(x)
+     /\ Matches(x.cls, <<"KeyError", "IndexError", "TypeError">>)
+  THEN Raised(GlomDoc("PathAccessError"), "new") ELSE x
+
 GlomOnlyCatchers == {"or", "and", "not", "matchdef", "switch"}   \* documented to catch GlomError only
 
 Up(c, l, x, leafid) ==
@@ -156,6 +166,7 @@ Up(c, l, x, leafid) ==
     [] c.k = "checkval"  -> UpCheckVal(c, l, x)
     [] c.k = "pathget"   -> UpPathGet(c, l, x)
     [] c.k = "geniter"   -> UpGenIter(c, l, x)
+    [] c.k = "targ"      -> UpTArg(c, l, x)
 
 \* ======================================================================================
 \* 3. MECHANISM: the except blocks of glom()   (glom/core.py, glom() and GlomError.wrap)
@@ -313,6 +324,7 @@ CatchCheckSpec    == Step("checkspec", "CatchCheckSpec")
 CatchCheckVal     == Step("checkval", "CatchCheckVal")
 CatchPathGet      == Step("pathget", "CatchPathGet")
 PassIter          == Step("geniter", "PassIter")
+PassArg           == Step("targ", "PassArg")
 \* Not(child) with a passing child is C10's business (pre-seen defect there): left out
 Exclude ==
   /\ ph = "up" /\ lvl > 0 /\ ctxs[lvl].k = "not" /\ ~IsRaised(x)
@@ -333,7 +345,7 @@ TopWrap(k)   == Top(k, "wrap", "TopWrap", DoWrap(x))
 TopLevel(k)  == TopReturn(k) \/ TopSkip(k) \/ TopBase(k) \/ TopDebug(k) \/ TopCopy(k) \/ TopWrap(k)
 
 Travel == Pass \/ CatchCoalesce \/ CatchOr \/ CatchAnd \/ CatchNot \/ CatchMatchDefault
-          \/ CatchSwitch \/ CatchCheckSpec \/ CatchCheckVal \/ CatchPathGet \/ PassIter \/ Exclude
+          \/ CatchSwitch \/ CatchCheckSpec \/ CatchCheckVal \/ CatchPathGet \/ PassIter \/ PassArg \/ Exclude
 
 \* ---- the laws as predicates over the machine -------------------------------------------
 Done == ph = "done"
@@ -348,6 +360,10 @@ InvBase              == Done => LawBase(kw, arr, x)
 PassThroughLaw ==
   [][(ph = "up" /\ ph' = "up" /\ lvl > 0 /\ IsRaised(x) /\ ~x.cls.glom
       /\ ctxs[lvl].k \in GlomOnlyCatchers) => x' = x]_vars
+\* constructs that document no catch at all (plain containers and wrappers, a list spec walking
+\* an iterator, the argument specs of a T operation) hand on exactly what they received
+TransparentLaw ==
+  [][(ph = "up" /\ ph' = "up" /\ lvl > 0 /\ ctxs[lvl].k \in {"pass", "geniter", "targ"}) => x' = x]_vars
 \* an exception created on the way (not the injected object) is a documented glom type
 CreatedAreDocumented ==
   (ph = "up" /\ IsRaised(x) /\ x.id = "new") => x.cls.kind = "glomdoc"
